@@ -1,13 +1,16 @@
 ---------------------------- MODULE Trace_Sighash ----------------------------
 (* Code -> spec binding for C04.  A trace is one transaction object of pycoin  *)
 (* and a sequence of signature-hash requests made on it through one            *)
-(* SolutionChecker; each event logs the request, what pycoin returned, the      *)
+(* SolutionChecker, with edits of the object by its owner in between.  A        *)
+(* request event (k = "ask") logs the request, what pycoin returned, the         *)
 (* projection of the transaction object AFTER the call, and a table of hash     *)
 (* values (the hash nodes of the spec's blob for that request, evaluated with   *)
-(* hashlib by the harness - TLC cannot hash).  TLC accepts a trace iff every    *)
-(* event is a Compute step of the rule book: the returned digest is the spec's  *)
-(* blob evaluated through the table (or the request was refused where the rule  *)
-(* book refuses), and the transaction is unchanged.                             *)
+(* hashlib by the harness - TLC cannot hash); an edit event (k = "edit") logs    *)
+(* the projection of the object after the owner changed it.  TLC accepts a      *)
+(* trace iff every request event is a Compute step of the rule book ON THE       *)
+(* FIELDS THE OBJECT HAS AT THAT MOMENT: the returned digest is the spec's blob  *)
+(* evaluated through the table (or the request was refused where the rule book  *)
+(* refuses), and the transaction is unchanged by it.                            *)
 EXTENDS SighashIO, TLC, TLCExt, Json, IOUtils
 
 Traces == JsonDeserialize(IOEnv.TRACE_FILE)
@@ -26,12 +29,16 @@ Compute(r) == /\ result' = DigestOf(r, TxOfJson(txj), txj.amts)
 Matches(d, e) == IF d = Refuse THEN e.raised = 1
                  ELSE IF d = Unconstrained THEN TRUE
                  ELSE e.raised = 0 /\ EvalBlob(d, e.tab) = e.res
-TCompute == /\ l <= Len(Ev)
+\* the environment's step: the owner of the object changes its fields as it likes
+TEdit == /\ l <= Len(Ev) /\ Ev[l].k = "edit"
+         /\ txj' = Ev[l].after
+         /\ l' = l + 1 /\ UNCHANGED <<tid, result>>
+TCompute == /\ l <= Len(Ev) /\ Ev[l].k = "ask"
             /\ Compute(Ev[l].r)
             /\ txj' = Ev[l].after          \* what pycoin left behind
             /\ Matches(result', Ev[l])
             /\ l' = l + 1 /\ UNCHANGED tid
-TNext == TCompute
+TNext == TCompute \/ TEdit
 TSpec == TInit /\ [][TNext]_tvars
 
 Reached == IF l = Len(Ev) + 1 THEN TLCSet(1, TLCGet(1) \cup {tid}) ELSE TRUE
